@@ -339,6 +339,23 @@ pub fn def(ctx: &Ctx) -> PropertyDef {
             },
             check_circuit,
         ),
+        // larger registers: quizx switches code paths by tensor size
+        Section::random_sharded(
+            "circuit-wide",
+            ctx.cases(120, 2400),
+            8,
+            move || {
+                circ_spec(CircParams {
+                    min_q: 6,
+                    max_q: t.pick(7, 8),
+                    max_gates: t.pick(8, 12),
+                    kinds: tensor_supported_kinds(),
+                    palette: Palette::ExactT,
+                    max_var: 0,
+                })
+            },
+            check_circuit,
+        ),
         Section::random(
             "helpers",
             ctx.cases(20000, 400000),
